@@ -50,6 +50,11 @@ CHECKS = {
                 text='Narrow slice (stated): binary graph serialisation only. For every degree sequence in the bound and all symbolic index values the serialised buffer has the documented header and deserialises to the same graph; for arbitrary buffers of 0..N words with symbolic header fields the constructor either aborts or performs only in-bounds accesses and accepts only self-consistent buffers.',
                 note='Trusted: clang-14 IR, irsym executor (validated by concrete co-execution vs ASan native build), z3 5.1.0. One defect found and fixed (out-of-bounds read for inconsistent counts). NOT covered: XmlScanner, MeshFileReader/Writer, PropertyMap, chart/partition parsers (std::string / iostream code has no IR; mutations there are not detected).',
                 ref='3/C11'),
+    'C10': dict(cat='model_checking', engine='E3',
+                technique='own IR symbolic executor on the real index-representative / congruency kernels (arbitrary 64-bit indices, z3 + cvc5 integer encoding) and on the real StandardRefinery / MeshPart refinery / mesh permutation for 1- and 2-cell meshes of every shape with symbolic entity orientation, cell rotation and permutation (solver-guided forking, all-SAT per path); oracles from the definition of a conforming refinement',
+                text='Partial (stated): (1) IndexRepresentative gives congruent numberings of one edge/triangle/quadrilateral the same key and non-congruent ones different keys, CongruencySampler/Mapping codes describe the vertex and edge correspondence, for ALL distinct 64-bit indices. (2) For 1- and 2-cell meshes of quad/tria/hexa/tetra with one (thorough: two) sub-entities numbered in any congruent way and/or the last cell in any orientation preserving numbering, the refined mesh has the formula counts, consistent local faces, unique entities, 1/2 cells per facet, the Euler characteristic, and exactly the pattern children per coarse entity (parents identified by generic-position coordinates); refined parts map one-to-one onto children of their parents and commute with topology; custom mesh permutations keep mesh and part targets consistent.',
+                note='Trusted: clang-14 IR, irsym executor (validated against ASan native build each run), z3 5.1.0, cvc5 1.0 (--solve-bv-as-int=sum, unsat answers only), FaceIndexMapping tables as definition. NOT covered: larger meshes and shipped mesh files, deeper refinement, volume/orientation of children, BoundaryFactory, topology deduction from vertex lists (only its key function), MeshNode/charts/adapt, 3D cell parts with topology (documented as not implemented: loud abort).',
+                ref='3/C10'),
     'C13': dict(cat='other', engine='E2',
                 technique='bounded symbolic execution of the real VectorMirror / TupleMirror / Gate templates on symbolic vectors, buffers and scaling factors for every ordered index list within the bound; gather/scatter, frequency and emulated-synchronisation identities decided by z3',
                 text='Partial (stated): process-local building blocks only. For every ordered index list on vectors of length <= 3 (thorough 4), scalar and blocked, with buffer offsets: gather copies exactly the mirrored entries, scatter_axpy adds alpha*buffer exactly there; TupleMirror (2, 3 components) uses consistent buffer ranges; Gate::compile frequencies are 1/(1+#mirrors containing the dof) for dofs shared by up to 3 (4) neighbours, weighted dot and from_1_to_0 follow; an emulated sync of three patches around a cross point sums each shared dof exactly once.',
